@@ -610,6 +610,135 @@ Qed.
 
 
 
+
+(* ---- naga_extractBits / naga_insertBits, from the emitted helper bodies (bit-level argument) ---- *)
+Lemma land31_small k : 0 <= k <= 31 -> Z.land k 31 = k.
+Proof. intros H. rewrite land31 by lia. apply Z.mod_small. lia. Qed.
+
+Lemma extract_u_bits a o c : 0 <= o -> 1 <= c -> o + c <= 32 ->
+  Z.shiftr (Z.shiftl a (32 - c - o) mod 4294967296) (32 - c) = Z.land (Z.shiftr a o) (Z.ones c).
+Proof.
+  intros Ho Hc Hoc. apply Z.bits_inj'. intros n Hn.
+  rewrite Z.shiftr_spec by lia. rewrite Z.land_spec, Z.shiftr_spec by lia.
+  rewrite Z.testbit_ones_nonneg by lia.
+  change 4294967296 with (2 ^ 32).
+  destruct (Z.ltb_spec n c).
+  - rewrite Z.mod_pow2_bits_low by lia. rewrite Z.shiftl_spec by lia.
+    rewrite andb_true_r. f_equal. lia.
+  - rewrite Z.mod_pow2_bits_high by lia. rewrite andb_false_r. reflexivity.
+Qed.
+
+Lemma hlsl_MathExtractBits_u32_correct : forall (a : Z) (b : Z) (c : Z), in32 a -> in32 b -> in32 c -> 
+  eval_template h_MathExtractBits_u32 [("a", TScal KUint, VU32 a); ("b", TScal KUint, VU32 b); ("c", TScal KUint, VU32 c)] t_MathExtractBits_u32 = Done (VU32 (extract_bits_u32 a b c)).
+Proof.
+  intros a b c Ha Hb Hc. teval. repeat ground_step. do 2 f_equal.
+  unfold extract_bits_u32, in32, M32 in *.
+  replace (if b <? 32 then b else 32) with (Z.min b 32) by (destruct (Z.ltb_spec b 32); lia).
+  set (o := Z.min b 32). assert (Ho : 0 <= o <= 32) by lia.
+  rewrite (Z.mod_small (32 - o)) by lia.
+  replace (if c <? 32 - o then c else 32 - o) with (Z.min c (32 - o)) by (destruct (Z.ltb_spec c (32 - o)); lia).
+  set (k := Z.min c (32 - o)). assert (Hk : 0 <= k <= 32 - o) by lia.
+  destruct (Z.eqb_spec k 0) as [K0|K0]; [reflexivity|].
+  rewrite (Z.mod_small (32 - k)) by lia. rewrite (Z.mod_small (32 - k - o)) by lia.
+  rewrite !land31_small by lia.
+  apply extract_u_bits; lia.
+Qed.
+
+Lemma extract_i_bits a o c : 0 <= o -> 1 <= c -> o + c <= 32 ->
+  (Z.shiftr (if Z.shiftl a (32 - c - o) mod 4294967296 <? 2147483648
+             then Z.shiftl a (32 - c - o) mod 4294967296
+             else Z.shiftl a (32 - c - o) mod 4294967296 - 4294967296) (32 - c)) mod 4294967296 =
+  (if Z.testbit (Z.land (Z.shiftr a o) (Z.ones c)) (c - 1)
+   then (Z.land (Z.shiftr a o) (Z.ones c) - Z.shiftl 1 c) mod 4294967296
+   else Z.land (Z.shiftr a o) (Z.ones c)).
+Proof.
+  intros Ho Hc Hoc.
+  pose proof (extract_u_bits a o c Ho Hc Hoc) as Hv.
+  set (x := Z.shiftl a (32 - c - o) mod 4294967296) in *.
+  set (v := Z.land (Z.shiftr a o) (Z.ones c)) in *.
+  assert (Hx : 0 <= x < 4294967296) by (apply Z.mod_pos_bound; lia).
+  assert (Hvr : 0 <= v < 2 ^ c).
+  { unfold v. rewrite Z.land_ones by lia. apply Z.mod_pos_bound. apply Z.pow_pos_nonneg; lia. }
+  assert (P32 : 2 ^ c <= 2 ^ 32) by (apply Z.pow_le_mono_r; lia). change (2 ^ 32) with 4294967296 in P32.
+  assert (Hbit : Z.testbit v (c - 1) = Z.testbit x 31).
+  { rewrite <- Hv. rewrite Z.shiftr_spec by lia. f_equal. lia. }
+  rewrite Hbit.
+  assert (Hb31 : Z.testbit x 31 = negb (x <? 2147483648)).
+  { pose proof (Z.testbit_spec' x 31 ltac:(lia)) as T. change (2 ^ 31) with 2147483648 in T.
+    destruct (Z.ltb_spec x 2147483648).
+    - rewrite Z.div_small in T by lia. destruct (Z.testbit x 31); [discriminate|reflexivity].
+    - assert (x / 2147483648 = 1) by (symmetry; apply Z.div_unique with (r := x - 2147483648); lia).
+      rewrite H0 in T. destruct (Z.testbit x 31); [reflexivity|discriminate]. }
+  rewrite Hb31.
+  destruct (Z.ltb_spec x 2147483648); cbn [negb].
+  - rewrite Hv. apply Z.mod_small. lia.
+  - rewrite Z.shiftr_div_pow2 by lia. rewrite Z.shiftl_1_l.
+    f_equal.
+    replace (x - 4294967296) with (x + (- 2 ^ c) * 2 ^ (32 - c)).
+    + rewrite Z.div_add by (apply Z.pow_nonzero; lia).
+      rewrite <- Z.shiftr_div_pow2 by lia. rewrite Hv. lia.
+    + rewrite Z.mul_opp_l. rewrite <- Z.pow_add_r by lia. replace (c + (32 - c)) with 32 by lia. reflexivity.
+Qed.
+
+Lemma hlsl_MathExtractBits_i32_correct : forall (a : Z) (b : Z) (c : Z), in32 a -> in32 b -> in32 c -> 
+  eval_template h_MathExtractBits_i32 [("a", TScal KInt, VI32 a); ("b", TScal KUint, VU32 b); ("c", TScal KUint, VU32 c)] t_MathExtractBits_i32 = Done (VI32 (extract_bits_i32 a b c)).
+Proof.
+  intros a b c Ha Hb Hc. teval. repeat ground_step. do 2 f_equal.
+  unfold extract_bits_i32, wrap, in32, M32 in *.
+  replace (if b <? 32 then b else 32) with (Z.min b 32) by (destruct (Z.ltb_spec b 32); lia).
+  set (o := Z.min b 32). assert (Ho : 0 <= o <= 32) by lia.
+  rewrite (Z.mod_small (32 - o)) by lia.
+  replace (if c <? 32 - o then c else 32 - o) with (Z.min c (32 - o)) by (destruct (Z.ltb_spec c (32 - o)); lia).
+  set (k := Z.min c (32 - o)). assert (Hk : 0 <= k <= 32 - o) by lia.
+  destruct (Z.eqb_spec k 0) as [K0|K0]; [reflexivity|].
+  rewrite (Z.mod_small (32 - k)) by lia. rewrite (Z.mod_small (32 - k - o)) by lia.
+  rewrite !land31_small by lia.
+  apply extract_i_bits; lia.
+Qed.
+
+(* 0xFFFFFFFF >> (32 - c) is the mask of c low bits *)
+Lemma ones_shiftr c : 1 <= c <= 32 -> Z.shiftr 4294967295 (32 - c) = Z.ones c.
+Proof.
+  intros Hc. change 4294967295 with (Z.ones 32).
+  apply Z.bits_inj'. intros n Hn. rewrite Z.shiftr_spec by lia.
+  rewrite !Z.testbit_ones_nonneg by lia.
+  destruct (Z.ltb_spec n c); destruct (Z.ltb_spec (n + (32 - c)) 32); try reflexivity; lia.
+Qed.
+
+Lemma hlsl_MathInsertBits_u32_correct : forall (a : Z) (b : Z) (c : Z) (d : Z), in32 a -> in32 b -> in32 c -> in32 d -> 
+  eval_template h_MathInsertBits_u32 [("a", TScal KUint, VU32 a); ("b", TScal KUint, VU32 b); ("c", TScal KUint, VU32 c); ("d", TScal KUint, VU32 d)] t_MathInsertBits_u32 = Done (VU32 (insert_bits a b c d)).
+Proof.
+  intros a b c d Ha Hb Hc Hd. teval. repeat ground_step. do 2 f_equal.
+  unfold insert_bits, not32, wrap, ALL_ONES, in32, M32 in *.
+  replace (if c <? 32 then c else 32) with (Z.min c 32) by (destruct (Z.ltb_spec c 32); lia).
+  set (o := Z.min c 32). assert (Ho : 0 <= o <= 32) by lia.
+  rewrite (Z.mod_small (32 - o)) by lia.
+  replace (if d <? 32 - o then d else 32 - o) with (Z.min d (32 - o)) by (destruct (Z.ltb_spec d (32 - o)); lia).
+  set (k := Z.min d (32 - o)). assert (Hk : 0 <= k <= 32 - o) by lia.
+  destruct (Z.eqb_spec k 0) as [K0|K0]; [reflexivity|].
+  rewrite (Z.mod_small (32 - k)) by lia.
+  rewrite !land31_small by lia.
+  rewrite ones_shiftr by lia.
+  reflexivity.
+Qed.
+
+Lemma hlsl_MathInsertBits_i32_correct : forall (a : Z) (b : Z) (c : Z) (d : Z), in32 a -> in32 b -> in32 c -> in32 d -> 
+  eval_template h_MathInsertBits_i32 [("a", TScal KInt, VI32 a); ("b", TScal KInt, VI32 b); ("c", TScal KUint, VU32 c); ("d", TScal KUint, VU32 d)] t_MathInsertBits_i32 = Done (VI32 (insert_bits a b c d)).
+Proof.
+  intros a b c d Ha Hb Hc Hd. teval. repeat ground_step. do 2 f_equal.
+  unfold insert_bits, not32, wrap, ALL_ONES, in32, M32 in *.
+  replace (if c <? 32 then c else 32) with (Z.min c 32) by (destruct (Z.ltb_spec c 32); lia).
+  set (o := Z.min c 32). assert (Ho : 0 <= o <= 32) by lia.
+  rewrite (Z.mod_small (32 - o)) by lia.
+  replace (if d <? 32 - o then d else 32 - o) with (Z.min d (32 - o)) by (destruct (Z.ltb_spec d (32 - o)); lia).
+  set (k := Z.min d (32 - o)). assert (Hk : 0 <= k <= 32 - o) by lia.
+  destruct (Z.eqb_spec k 0) as [K0|K0]; [reflexivity|].
+  rewrite (Z.mod_small (32 - k)) by lia.
+  rewrite !land31_small by lia.
+  rewrite ones_shiftr by lia.
+  reflexivity.
+Qed.
+
 (* ---- naga_f2i32 / naga_f2u32: int(clamp(value, lo, hi)) from the emitted helper body.
    For every non-NaN operand below 2^31 (2^32) the conversion is defined in HLSL (the clamped float
    is finite and in range) and yields the WGSL value.  Outside that set: NaN is WGSL-indeterminate
@@ -1263,16 +1392,16 @@ Proof.
   - entry_by hlsl_MathFirstTrailingBit_i32_correct.
   - exact I.
   - exact I.
-  - exact I.
-  - exact I.
+  - entry_by hlsl_MathExtractBits_i32_correct.
+  - entry_by hlsl_MathInsertBits_i32_correct.
   - entry_by hlsl_MathCountOneBits_u32_correct.
   - entry_by hlsl_MathReverseBits_u32_correct.
   - entry_by hlsl_MathFirstLeadingBit_u32_correct.
   - entry_by hlsl_MathFirstTrailingBit_u32_correct.
   - exact I.
   - exact I.
-  - exact I.
-  - exact I.
+  - entry_by hlsl_MathExtractBits_u32_correct.
+  - entry_by hlsl_MathInsertBits_u32_correct.
   - entry_by hlsl_MathFloor_f32_correct.
   - entry_by hlsl_MathCeil_f32_correct.
   - entry_by hlsl_MathTrunc_f32_correct.
